@@ -552,20 +552,74 @@ pub fn planar_lines(bgra: &[u8], width: usize, height: usize) -> Vec<Vec<Vec<u8>
     planes
 }
 
-/// encode with a chooser that picks, for (plane, line), one of the possible segmentations
-pub fn planar_encode<F: FnMut(usize, usize, &[Vec<Seg>]) -> usize>(bgra: &[u8], width: usize, height: usize, mut choose: F) -> Vec<u8> {
+/// deterministic segmentation strategies for scan lines too long to enumerate exhaustively
+///  0: greedy maximal runs (up to 47, i.e. both long-run escapes)   1: no runs, raw chunks of 15
+///  2: runs capped at 15 (no escapes)   3: raw chunks of 1   4: runs capped at 16 (smallest escape)
+///  5: runs capped at 32 (second escape boundary)   6: runs capped at 31   7: raw chunks of 7, runs capped at 33
+pub fn strategy_segs(vals: &[u8], strategy: usize) -> Vec<Seg> {
+    let (max_run, raw_chunk): (usize, usize) = match strategy % 8 {
+        0 => (47, 15),
+        1 => (0, 15),
+        2 => (15, 15),
+        3 => (47, 1),
+        4 => (16, 15),
+        5 => (32, 15),
+        6 => (31, 4),
+        _ => (33, 7),
+    };
+    let mut out: Vec<Seg> = vec![];
+    let mut pos = 0;
+    let mut last: u8 = 0;
+    let mut raw: Vec<u8> = vec![];
+    while pos < vals.len() {
+        let run_val = if let Some(l) = raw.last() { *l } else { last };
+        let mut avail = 0;
+        while pos + avail < vals.len() && vals[pos + avail] == run_val {
+            avail += 1;
+        }
+        let take = avail.min(max_run);
+        if take >= 3 {
+            out.push(Seg { raw: raw.clone(), run: take });
+            last = run_val;
+            raw.clear();
+            pos += take;
+            continue;
+        }
+        raw.push(vals[pos]);
+        pos += 1;
+        if raw.len() == raw_chunk {
+            last = *raw.last().unwrap();
+            out.push(Seg { raw: raw.clone(), run: 0 });
+            raw.clear();
+        }
+    }
+    if !raw.is_empty() {
+        out.push(Seg { raw, run: 0 });
+    }
+    out
+}
+
+/// encode with an explicit segmentation per (plane, line)
+pub fn planar_encode_with<F: FnMut(usize, usize, &[u8]) -> Vec<Seg>>(bgra: &[u8], width: usize, height: usize, mut segs_for: F) -> Vec<u8> {
     let mut w = W::new();
     w.u8(0x10);
     for (pi, plane) in planar_lines(bgra, width, height).iter().enumerate() {
         for (li, line) in plane.iter().enumerate() {
-            let segs = segmentations(line);
-            let pick = choose(pi, li, &segs);
-            for s in &segs[pick] {
+            for s in &segs_for(pi, li, line) {
                 emit_seg(s, &mut w);
             }
         }
     }
     w.done()
+}
+
+/// encode with a chooser that picks, for (plane, line), one of all possible segmentations (short lines only)
+pub fn planar_encode<F: FnMut(usize, usize, &[Vec<Seg>]) -> usize>(bgra: &[u8], width: usize, height: usize, mut choose: F) -> Vec<u8> {
+    planar_encode_with(bgra, width, height, |pi, li, line| {
+        let segs = segmentations(line);
+        let pick = choose(pi, li, &segs);
+        segs[pick].clone()
+    })
 }
 
 /// Reference planar decoder (used only to validate the encoder in the self test)
@@ -660,6 +714,15 @@ pub fn self_test() -> Result<(), String> {
     }
     if n == 0 {
         return Err("planar self-test vacuous".into());
+    }
+    for (w, h) in [(40usize, 2usize), (64, 1), (5, 3)] {
+        let img: Vec<u8> = (0..w * h * 4).map(|i| if (i / 4) % w < 3 { i as u8 } else { 0x80 }).collect();
+        for st in 0..8 {
+            let enc = planar_encode_with(&img, w, h, |_, _, line| strategy_segs(line, st));
+            if planar_decode(&enc, w, h)? != img {
+                return Err(format!("planar strategy {} self-test {}x{}", st, w, h));
+            }
+        }
     }
     Ok(())
 }
